@@ -171,11 +171,16 @@ def judge_one(req, st, toks):
     return None
 
 
+VIOL_FULL = 8      # violations per task that keep their whole block
+VIOL_CAP = 60      # violations per task that are kept at all
+
+
 def run_and_judge(prop, ctx, cfgbins, shards=1, compare=True, wrapper=None, force=None, timeout=900, strip=True):
     """Run all blocks of ctx on each (cfgname, binary[, force]) and judge.
     cfgbins: list of (label, binary, force) where force is None or 1/2/3 (dispatcher override).
     Returns dict with stats, violations, harness errors, samples."""
     viol = []
+    dropped_viol = 0
     harness = []
     samples = []
     evals = 0
@@ -234,8 +239,17 @@ def run_and_judge(prop, ctx, cfgbins, shards=1, compare=True, wrapper=None, forc
                 if why.startswith('HARNESS'):
                     harness.append('%s: %s: %s' % (label, r.line()[:300], why))
                 else:
-                    viol.append(Violation(prop, label, r.line(), [x.line() for x in b],
-                                          r.expect if not callable(r.expect) else 'predicate', toks, why))
+                    # a broken tree can produce thousands of violations: the first ones carry their whole block (needed to
+                    # replay $id.k references), later ones only themselves, and beyond a cap they are only counted
+                    if len(viol) < VIOL_FULL:
+                        blk = [x.line() for x in b]
+                    elif len(viol) < VIOL_CAP:
+                        blk = [r.line()[:2000]]
+                    else:
+                        dropped_viol += 1
+                        continue
+                    viol.append(Violation(prop, label, r.line()[:100000], blk,
+                                          r.expect if not callable(r.expect) else 'predicate', [t[:2000] for t in toks[:40]], why[:2000]))
     # cross-config comparison (C05): byte-identical responses for requests executed everywhere
     cross = 0
     cross_viol = []
@@ -258,11 +272,16 @@ def run_and_judge(prop, ctx, cfgbins, shards=1, compare=True, wrapper=None, forc
                     cross += 1
                     sa, sc = (strip_repr(a), strip_repr(c)) if strip else (a, c)
                     if sa != sc:
-                        cross_viol.append(Violation('C05', base + ' vs ' + l, r.line(), [x.line() for x in b],
-                                                    sa, sc, 'configurations disagree'))
-    return {'violations': viol, 'harness': harness, 'samples': samples, 'evaluations': evals,
-            'distinct': distinct, 'per_cfg': per_cfg, 'classes': dict(ctx.classes),
-            'cross_compared': cross, 'cross_violations': cross_viol}
+                        if len(cross_viol) < VIOL_CAP:
+                            cross_viol.append(Violation('C05', base + ' vs ' + l, r.line()[:100000],
+                                                        [x.line() for x in b] if len(cross_viol) < VIOL_FULL else [r.line()[:2000]],
+                                                        sa, sc, 'configurations disagree'))
+    out = {'violations': viol, 'harness': harness[:200], 'samples': samples, 'evaluations': evals,
+           'distinct': distinct, 'per_cfg': per_cfg, 'classes': dict(ctx.classes),
+           'cross_compared': cross, 'cross_violations': cross_viol}
+    if dropped_viol:
+        out['extra'] = {'violations_beyond_cap_in_one_task': dropped_viol}
+    return out
 
 
 def strip_repr(resp):
